@@ -75,6 +75,9 @@ func build(seed uint64, index int) lib.Case {
 			ig := o.Conf.Integrations[run.Ig]
 			t := o.Fake.Tables[ig.Table.Name]
 			for _, w := range run.Written {
+				if w == "" {
+					fail("written-column-empty", fmt.Sprintf("integration %s writes a column with an EMPTY name (a field without table column was accepted)", ig.Name))
+				}
 				found := false
 				if t != nil {
 					for _, col := range t.Cols {
